@@ -1193,3 +1193,35 @@ Q(name="e2_streams_received_reset", props=["C06", "C11"], func=r"state\.rs:144:1
   functions=["StreamsState::received_reset"], pre=lambda c: "true", post=rr_post,
   bounds="every stream lookup outcome and every verdict of Recv::reset (covered by recv_reset): reset is given this frame's error code and final offset, the connection's data_recvd and OUR local_max_data as they are at that moment; an error is returned as is; the credit handed back is final_offset - bytes_read",
   replay=("streams_received_reset_native", lambda m: [dict(over=0), dict(over=1)]))
+
+
+# ------------------------------------------------------------------ C16 / C13: a DATAGRAM frame is written only if the frame AS ENCODED fits the remaining packet space
+def dw_post(c, p):
+    st = p.p.state
+    pop = p.called(r"VecDeque.*::pop_front$")
+    size = p.called(r"Datagram::size$")
+    enc = p.called(r"Datagram::encode$")
+    push = p.called(r"VecDeque.*::push_front")
+    ret = c.ex.read_key(st, "_0", BOOL).t
+    if len(pop) != 1:
+        return "false"
+    if not size:
+        return and_(not_(ret), "true" if (not enc and not push) else "false")       # nothing queued
+    if len(size) != 1 or size[0][1][1][0] != "val":
+        return "false"
+    buf_len, max_size = c.inp("*_2.1", BV64), c.inp("_3", BV64)
+    fits = ule("(bvadd %s %s)" % (zext(buf_len, 64), zext(size[0][2], 64)), zext(max_size, 64))
+    if enc:
+        # encoded with the same framing the size was computed for, into the caller's buffer; the payload is un-accounted
+        same = len(enc) == 1 and enc[0][1][1][0] == "val" and enc[0][1][1][1].t == size[0][1][1][1].t and enc[0][1][0] == size[0][1][0] and enc[0][1][2] == ("ref", "*_2") and not push
+        return and_(ret, fits, "true" if same else "false")
+    # does not fit: the datagram goes back to the FRONT of the queue, nothing is written
+    back = len(push) == 1 and push[0][1][1] == ("agg", pop[0][2] + "@Some.0")
+    return and_(not_(ret), not_(fits), "true" if back else "false")
+
+
+Q(name="e2_dgram_write", props=["C16", "C13"], func=r"datagrams\.rs[^>]*>::write$",
+  pure=[r"Datagram::size$"], allowed_panics=r"attempt to compute",
+  functions=["DatagramState::write"], pre=lambda c: ule(c.inp("*_2.1", BV64), bv((1 << 63) - 1)), post=dw_post,
+  bounds="every queue state, buffer fill and size limit: a frame is written iff buffer length + Datagram::size(flag) <= limit, it is encoded with the SAME length flag the size was computed with (size/encode themselves: frame obligations), otherwise the datagram returns to the head of the queue; VecDeque opaque",
+  replay=("dgram_write_native", lambda m: [dict(l0=l, used=u, max_size=mx) for (l, u, mx) in ((50, 10, 62), (50, 10, 61), (50, 10, 63), (200, 0, 202), (200, 0, 203), (0, 5, 7), (0, 5, 6))]))
